@@ -19,7 +19,8 @@ REQUIRED = ['getNBest_shape', 'plurality_shape', 'quotaSelector_refusals', 'ha_s
             'kemeny_shape', 'kemeny_refusals', 'rankedpairs_shape_partial', 'rankedpairs_shape_le_two', 'rankedpairs_refusals',
             'rankedpairs_refusals_all', 'rankedpairs_short_witness', 'seatless_shape', 'seatless_smith_nonempty', 'benham_shape',
             'benham_refusals_partial', 'benham_refusals_witness', 'tideman_shape', 'tideman_refusals_partial', 'tideman_no_votes',
-            'tideman_refusals_witness', 'bucklin_shape_partial', 'bucklin_whole_shape_partial', 'bucklin_refusals',
+            'tideman_refusals_witness', 'benham_lone_elected', 'tidemanN_shape', 'tidemanN_refusals_partial', 'tidemanN_refusals_witness',
+            'bucklin_shape_partial', 'bucklin_whole_shape_partial', 'bucklin_refusals',
             'bucklin_whole_refusals', 'bucklin_answers', 'bucklin_whole_refusals_all', 'bucklin_short_witness',
             # Lemmas/ShapeCardinal.lean, ShapeApprovalPAV.lean
             'score_shape', 'score_refusals', 'score_total', 'score_refusals_partial', 'score_refusals_witness', 'score_total_trunc',
@@ -190,10 +191,13 @@ PARTIAL_FAMILIES = {
                          'C08-mj-statistics-error); proved: mj_shape (full), mjDefault_refusals_partial (VotingSystemError or StatisticsError)',
     'allocated_score_hare': 'allocated_refusals (only declared refusals) is FALSE of the code (allocated_refusals_witness: ValueError / IndexError when '
                             'the ballots run out; open findings); proved: allocated_shape (FULL since fix 4ae6629), allocated_refusals_partial',
-    'benham': 'benham_refusals is FALSE of the code (IndexError: benham_refusals_witness, open findings C05-benham-*); proved for one seat: '
-              'benham_shape, benham_refusals_partial; n_seats >= 2 is not modelled',
-    'tideman_alternative': 'tideman_refusals is FALSE of the code (IndexError/KeyError: tideman_refusals_witness, open findings C05-tideman-*); '
-                           'proved for one seat: tideman_shape, tideman_refusals_partial; n_seats >= 2 is not modelled',
+    'benham': 'benham_refusals is FALSE of the code (IndexError on an elimination tie: benham_refusals_witness, open finding '
+              'C05-benham-elimination-tie-crash); proved for one seat: benham_shape (a lone candidate included, fix 1230cf6), '
+              'benham_refusals_partial (IndexError only, needs >= 2 candidates); n_seats >= 2 raises AssertionError (observation)',
+    'tideman_alternative': 'tideman_refusals / tidemanN_refusals are FALSE of the code (IndexError on an elimination tie, KeyError on a tied tier: '
+                           'tideman_refusals_witness, tidemanN_refusals_witness, open findings C05-tideman-elimination-tie-crash, '
+                           'C05-tideman-tie-keyerror); proved: tideman_shape, tidemanN_shape (exactly n distinct candidates for every n, FULL), '
+                           'tideman_refusals_partial, tidemanN_refusals_partial (IndexError / KeyError only)',
     **{k: 'bucklin_n_shape (exactly n places) is FALSE of the code (bucklin_n_short_witness / bucklin_short_witness: fewer than n candidates ever '
           'pass the majority quota; open finding C08-preference-addition-short-list); proved for every n, every coefficient function, with and '
           'without splitting of shared ranks: bucklin_n_shape_partial (everything but the length), bucklin_n_one_tie (a short answer has no tie), '
@@ -231,7 +235,7 @@ NOT_VERIFIED = ['families listed under unproved: the entry names the statement t
                 'score ballots, shared ranks): the elected set and the tie places are compared; AllocatedScore (outcome depends on the iteration '
                 'order of a Tie, open finding C12-allocated-score-tie-order): on a difference the real evaluator is re-run with candidate objects that '
                 'hash to their id (the order the model assumes) and that run is compared',
-                'Benham / Tideman alternative are modelled for one seat only (C05): n >= 2 raises AssertionError / TypeError (outside sentence 3: observation)',
+                'Benham is modelled for one seat only (C05): n >= 2 raises AssertionError (outside sentence 3: observation); Tideman alternative is modelled for every n (tidemanN)',
                 'the Condorcet evaluators are modelled on the pairwise dictionary produced by the REAL RankedToCondorcetVotes converter (C13 owns its model)']
 
 
@@ -464,8 +468,14 @@ def model_line(case):
         pw = cv.RankedToCondorcetVotes().convert(fam_mod.build('ranked', case['prof'], NAMES))
         return {'op': {'condorcet_winner': 'cw', 'smith_set': 'smith', 'schwartz_set': 'schwartz'}[f],
                 'votes': [[NAMES.i(a), NAMES.i(b), num_str(w)] for (a, b), w in pw.items()]}
-    if f in ('benham', 'tideman_alternative') and case['n'] == 1:
-        return {'op': 'benham' if f == 'benham' else 'tideman', 'profile': case['prof'], 'smith': True}
+    if f == 'benham' and case['n'] == 1:
+        return {'op': 'benham', 'profile': case['prof']}
+    if f == 'tideman_alternative':
+        # one seat: `tideman`; any number of seats (since fixes 33df8fe / bddde61): `tidemanN`, one tier per seat
+        line = {'op': 'tideman', 'profile': case['prof'], 'smith': True}
+        if case['n'] != 1:
+            line['n'] = case['n']
+        return line
     if f.startswith('openlist_'):
         clist = sorted(fam_mod.candidates_of('simple', case['prof']), reverse=True)
         if f == 'openlist_tiebreaker_plurality':
